@@ -354,10 +354,6 @@ package group
 //@ -- ------------------------------------------------------------------ group definition files (C17, C18)
 //@ global std-errors-set: os.ErrNotExist != nil && ErrTagMismatch != nil && ErrDescriptionsNotWritable != nil
 //@
-//@ extern token.ParseKeys
-//@   why token/jwt.go: validates a list of JWKs; no effect on program state (not yet verified here)
-//@   modifies nothing
-//@
 //@ func makeETag
 //@   trusted
 //@   why description.go: fmt.Sprintf("\"%v-%v\"", size, mtime in ns): a deterministic function of its arguments that always starts with a quote, hence never the empty tag
@@ -646,10 +642,6 @@ package group
 //@   modifies nothing
 //@   ensures def: result == (username == "" || validGroupName(username))
 //@
-//@ extern token.Parse
-//@   why token/token.go: parses a stateful or signed token; no effect on the group layer (examined under C09)
-//@   modifies nothing
-//@   ensures one: (result0 != nil) == (result1 == nil)
 //@ iface token.Token.NeedsUsername
 //@   why token: a field test
 //@   modifies nothing
@@ -674,7 +666,7 @@ package group
 //@   ensures password-grants: creds.Token == "" && result2 == nil ==> grants(gppperm(desc, creds), desc, result1)
 //@   -- C09: a token is checked against the group being joined, and grants exactly what the check returned;
 //@   -- the token's username wins, and a name chosen by the client never shadows a configured user
-//@   assert at call Check this-group: arg_group == groupname
+//@   assert at call Check this-group: arg_group == groupname && arg_host == first(callresult("GetConfiguration", 1)).CanonicalHost
 //@   proves token-checked: creds.Token != "" && result2 == nil ==> third(callresult("Check", 1)) == nil && second(callresult("Parse", 1)) == nil
 //@   proves token-perms: creds.Token != "" && result2 == nil ==> same(result1, second(callresult("Check", 1)))
 //@   proves token-name: creds.Token != "" && result2 == nil && first(callresult("Check", 1)) != "" ==> result0 == first(callresult("Check", 1))
